@@ -39,7 +39,7 @@ Member(n, t, m, cap, vb, vs, js, pb, ps, jp, seed, label, rng) ==
   LET vals  == [j \in 1..m |-> Val(IF j = js THEN vs ELSE vb, n)]
       proms == [j \in 1..m |-> Prom(IF j = jp THEN ps ELSE pb, vals[j], n)]
   IN [n |-> n, t |-> t, m |-> m, cap |-> cap, vals |-> vals, proms |-> proms, seed |-> seed, label |-> label,
-      rng |-> rng, wit |-> NoWit, mut |-> NoMut, bseed |-> 0, rvar |-> 0, zb |-> 0, ppg |-> 0, wshift |-> 0, eqb |-> 0,
+      rng |-> rng, wit |-> NoWit, mut |-> NoMut, bseed |-> 0, rvar |-> 0, zb |-> 0, ppg |-> 0, wshift |-> 0, eqb |-> 0, zk |-> 0,
       v |-> [n |-> n, t |-> t, cap |-> cap, proms |-> proms, seed |-> seed, label |-> label, pgH |-> 0, pgG |-> 0,
              commit |-> "same", cj |-> 0]]
 Plain(n, t, m, cap, seed) == Member(n, t, m, cap, "mid", "mid", 0, "none", "none", 0, seed, 0, "chacha")
@@ -114,12 +114,16 @@ FamWitness ==
       E == { One([[Member(n, t, m, m, "mid", "mid", 0, pb, ps, j, 0, 0, "chacha") EXCEPT !.eqb = j2] EXCEPT !.proms[j2] = Prom(ps2, Val("mid", n), n),
                                                                                                      !.v.proms[j2] = Prom(ps2, Val("mid", n), n)], "VerifyOnly") :
                n \in {4, 64}, t \in {1, 2}, m \in Ms \ {1}, j \in 1..8, j2 \in 2..8, pb \in {"none"}, ps \in {"none", "lt", "eq", "gt"}, ps2 \in {"none", "lt", "eq", "gt"} }
+      \* ONE component of a blinding vector is zero (degree >= 2), at one position of an aggregate
+      Zk == { One([Member(n, t, m, m, "mid", "one", j, "none", "none", 0, 0, 0, "chacha") EXCEPT !.zb = j, !.zk = k], "VerifyOnly") :
+                n \in {4, 64}, t \in {2, 3}, m \in {1, 2, 4}, j \in 1..4, k \in 1..3 }
       \* all-zero blinding vectors (with value zero the commitment is the identity)
       Z == { One([Member(n, t, m, m, "mid", vs, j, "none", ps, j, 0, 0, "chacha") EXCEPT !.zb = j], "VerifyOnly") :
                n \in NsW, t \in {1, 2}, m \in Ms, j \in 1..4, vs \in {"zero", "one"}, ps \in {"none", "zero"} }
   IN {s \in B \cup W \cup W3 : s.members[1].wit.j <= s.members[1].m} \cup {s \in W2 : s.members[1].wit.j < s.members[1].m}
      \cup {s \in B2 : \E j \in 1..7, j2 \in 2..8 : j < j2 /\ j2 <= s.members[1].m /\ s.members[1].vals[j] # Val("mid", s.members[1].n) /\ s.members[1].vals[j2] # Val("mid", s.members[1].n)}
      \cup {s \in Z : s.members[1].zb <= s.members[1].m}
+     \cup {s \in Zk : s.members[1].zb <= s.members[1].m /\ s.members[1].zk <= s.members[1].t}
      \cup {s \in E : s.members[1].eqb <= s.members[1].m /\ \E j \in 1..8 : j <= s.members[1].m /\ (j = s.members[1].eqb - 1 \/ j = s.members[1].eqb)}
 
 (***************************************************************************************************)
@@ -318,6 +322,7 @@ FamHedge ==
             \cup { LET ps == [a.proms EXCEPT ![j] = IF @ = None THEN U64Zero ELSE U64Dec(@)] IN [a EXCEPT !.proms = ps, !.v.proms = ps] : j \in 1..a.m }
             \cup { [a EXCEPT !.vals[j] = U64Dec(@)] : j \in 1..a.m }
             \cup { [a EXCEPT !.seed = 2, !.v.seed = 2] }
+            \cup (IF a.seed = 1 THEN { [a EXCEPT !.seed = 3, !.v.seed = 3] } ELSE {})      \* a seed that differs from seed 1 in its last byte only
             \cup { [a EXCEPT !.rvar = 1] }          \* same inputs, a different external RNG stream (only distinguishable for "chacha")
       \* two openings of the SAME commitments: degenerate blinding generators (G_2 := G_1, possible because the generator
       \* record has public fields) and blindings (r_1 + 1, r_2 - 1); everything public is identical, only the witness differs
